@@ -193,8 +193,8 @@ def outboxReady (s : State) (o : Send) : State × List Out :=
 def readPhase (cfg : Cfg) (s : State) : State × List Out × Bool :=
   match s.pendingIn with
   | c :: cs =>
-    let s' := { s with pendingIn := if c.length ≤ 1024 then cs else c.drop 1024 :: cs }
-    let r := dataReceived cfg s' (c.take 1024)
+    let s' := { s with pendingIn := if c.length ≤ REACTOR_RECV then cs else c.drop REACTOR_RECV :: cs }
+    let r := dataReceived cfg s' (c.take REACTOR_RECV)
     (r.1, r.2, !r.1.dead)
   | [] => if s.eof then let r := connectionLost s; (r.1, r.2, false) else (s, [], true)
 
